@@ -600,11 +600,13 @@ def check(case):
             _cg_precond_info(op, A, info)
     if raised is not None:
         algos = state.algorithms(lines)
-        seen["path"] = "slq" if ("symeig" in algos and "cg" in algos) else ("cg" if "cg" in algos else ("chol" if "cholesky" in algos else "closed"))
+        seen["path"] = "slq" if (want_ld and "symeig" in algos and "cg" in algos) else ("cg" if "cg" in algos else ("chol" if "cholesky" in algos else "closed"))
         fr = X.innermost_lo_frame(raised)
-        if fr is not None and fr[0].replace("\\", "/") == "utils/lanczos.py" and any(e.get("property") == "C09" for e in _open_entries()):
+        if fr is not None and fr[0].replace("\\", "/") in ("utils/lanczos.py", "functions/_diagonalization.py") and any(
+            e.get("property") == "C09" or e.get("id") == "F-C04-lanczos-structured-solve" for e in _open_entries()
+        ):
             # raised inside the Lanczos utilities (factor diagonalisation / root decomposition above max_cholesky_size) while
-            # C09 findings are open (break-down handling): C09's subject, counted, not a C05 verdict
+            # the C09 break-down findings / F-C04-lanczos-structured-solve are open: their subject, counted, not a C05 verdict
             return {"nontrivial": False, "key": "foreign_c09", "labels": ["foreign:c09_lanczos_exception", "head:" + head]}
         if X.is_declined(raised, "logdet"):
             return {"nontrivial": False, "key": "declined", "labels": ["declined", "declined:%s:%s" % (head, str(raised)[:60])]}
@@ -903,7 +905,15 @@ def _t_batchrepeat_nested(case):
     return any(x["op"] == "BatchRepeat" for c in R.children(r) for x in R.walk(c))
 
 
+def _t_block_kron(case):
+    r = case["recipe"]
+    if r["op"] not in ("BlockDiag", "BlockInterleaved") or gen.is_diag_instance(r):
+        return False
+    return case["entry"] in ("inv_quad", "fn.inv_quad") and _iterative(case) and r["base"]["op"] in ("Kronecker", "KroneckerTri", "KroneckerDiag")
+
+
 TRIGGERS = {
+    "block_over_kronecker_inv_quad_iterative": _t_block_kron,
     "batch_repeat_nested_below_head": _t_batchrepeat_nested,
     "cg_budget_equals_lanczos_budget_equals_n": _t_cg_budget,
     "zero_logdet": lambda case: case["recipe"]["op"] == "Zero",
